@@ -271,10 +271,17 @@ def c11(ctx):
                 t.add_file('Manifest', b'MANIFEST dir/sub/Manifest 0\n', mtime=1500000000)
                 files = {'dir/sub/f': b'hello'}
             tz = r.choice(TZS)
-            stats['tz'][tz] = stats['tz'].get(tz, 0) + 1
             hashes = r.choice(PT.HASHSETS)
             key = GT.order_key_for(r.randint(0, 3))
             t0 = 1600000000 + r.randint(0, 10**6)
+            if case_no % 9 == 4:
+                # a TIMESTAMP whose digits, read as local wall-clock time, do not exist or exist twice in the zone of the process (the hour skipped /
+                # repeated at a daylight-saving switch): TIMESTAMP is UTC text, the local zone must not matter
+                tz, t0 = [('Europe/Berlin', 1616898600), ('Europe/Berlin', 1635640200), ('America/St_Johns', 1615689000), ('America/New_York', 1615689000),
+                          ('Australia/Lord_Howe', 1633188600), ('Europe/Berlin', 1616895000)][(case_no // 9) % 6]
+                t0 += (case_no // 54) % 1800
+                stats['timestamps_in_a_dst_switch_hour'] = stats.get('timestamps_in_a_dst_switch_hour', 0) + 1
+            stats['tz'][tz] = stats['tz'].get(tz, 0) + 1
             a, _ = sc.fresh()
             b, _ = sc.fresh()
             try:
